@@ -52,9 +52,9 @@ def gen():
         zs = st.lists(st.floats(-2, 2, width=32), min_size=5, max_size=5)
         upd = st.tuples(st.just("update"), st.sampled_from(["eager", "eager", "jit", "vmap_pos", "vmap_both"]), st.integers(0, 20),
                         st.lists(zs, min_size=nv, max_size=nv), st.sampled_from(["var", "node"]), st.lists(st.booleans(), min_size=nv, max_size=nv))
-        op = st.one_of(upd, upd, upd, st.tuples(st.just("repeat"), st.integers(0, 20)), st.tuples(st.just("extract"), st.integers(0, 20)),
+        op = st.one_of(upd, upd, upd, upd, upd, st.tuples(st.just("repeat"), st.integers(0, 20)), st.tuples(st.just("repeat"), st.integers(0, 20)), st.tuples(st.just("extract"), st.integers(0, 20)),
                        st.tuples(st.just("logprob"), st.integers(0, 20))).map(list)
-        return {"spec": spec, "ops": draw(st.lists(op, min_size=3, max_size=9)), "pending": draw(st.booleans()), "clash": draw(st.booleans())}
+        return {"spec": spec, "ops": draw(st.lists(op, min_size=4, max_size=12)), "pending": draw(st.booleans()), "clash": draw(st.booleans())}
 
     return g()
 
@@ -150,7 +150,7 @@ def oracle(case):
         else:
             B = min(2, len(pool))
             idxs = [(sidx + b) % len(pool) for b in range(B)]
-            bstate = jax.tree_util.tree_map(lambda *xs: jnp.stack([jnp.asarray(x) for x in xs]), *[strip(pool[i]) for i in idxs])
+            bstate = jax.tree_util.tree_map(lambda *xs: jnp.stack([jnp.asarray(x) for x in xs]), *[pool[i] for i in idxs])
             bpos = {k: jnp.stack([v + 0.125 * b for b in range(B)]) for k, v in pos.items()}
             bout = jax.vmap(iface.update_state, in_axes=(0, 0))(bpos, bstate)
             outs = [({k: v[b] for k, v in bpos.items()}, pool[idxs[b]], jax.tree_util.tree_map(lambda x: x[b], bout)) for b in range(B)]
@@ -311,6 +311,6 @@ def oracle_records(c):
 
 
 SUBS = [
-    Sub("liesel", oracle, gen=gen, n={"quick": 160, "thorough": 3000}, shrink_calls=40, what="LieselInterface call histories vs direct assignment; modes; purity"),
+    Sub("liesel", oracle, gen=gen, n={"quick": 320, "thorough": 6000}, shrink_calls=40, what="LieselInterface call histories vs direct assignment; modes; purity"),
     Sub("records", oracle_records, gen=gen_records, n={"quick": 600, "thorough": 10000}, what="Dict / Dataclass / NamedTuple interface laws"),
 ]
